@@ -407,6 +407,14 @@ fn decorrelate_in_subquery(
         return Ok(None);
     }
 
+    // Every correlation predicate has already been taken out of the subquery.
+    // If one of them did not become a join condition (a non-equality, or an
+    // inner column the subquery does not output) the rewrite would lose it and
+    // return rows the subquery excludes: leave such a subquery alone.
+    if join_on.len() != correlation_predicates.len() {
+        return Ok(None);
+    }
+
     let join_type = if negated {
         JoinType::Anti
     } else {
@@ -491,6 +499,12 @@ fn decorrelate_scalar_subquery(
     let join_on = build_join_conditions(&correlation_predicates, outer, &join_right)?;
 
     if join_on.is_empty() {
+        return Ok(None);
+    }
+
+    // As for IN: a correlation predicate that did not become a join condition
+    // would be lost (it was removed from the subquery above).
+    if join_on.len() != correlation_predicates.len() {
         return Ok(None);
     }
 
